@@ -65,9 +65,9 @@ CFG = dict(
                          "late:llgr:in-reconnected": 150, "late:llgr:in-idle": 280, "late:llgr:in-llgr-staling": 5,
                          "l2:profile:late-cycle": 200}),
     # l2 first: the driver keeps the first witness per signature, and an end-to-end witness is the most convincing one
-    quick=[e2("l2", _T, 4, 60, part="l2", count=1500),
-           e2("l1x", _T, 12, 120, part="l1x", depth=5, nshards=12),
-           e2("l1r", _T, 2, 60, part="l1r", count=8000)],
+    quick=[e2("l2", _T, 4, 240, part="l2", count=1500),
+           e2("l1x", _T, 12, 400, part="l1x", depth=5, nshards=12),
+           e2("l1r", _T, 2, 240, part="l1r", count=8000)],
     thorough=[e2("l2", _T, 16, 300, part="l2", count=5000),
               e2("l1x", _T, 16, 900, part="l1x", depth=6, nshards=16),
               e2("l1r", _T, 8, 300, part="l1r", count=100000)],
